@@ -236,11 +236,11 @@ def _analyse(ctx, which, rule_ids):
     return w, cfg, out
 
 
-def rule_D1(ctx):
+def rule_D1(ctx, decoders=(AKAI, ROLAND)):
     """every exit of a decoder walk that may hold accumulated links installs them, unless the exit is
     taken only for a malformed table"""
     total = 0
-    for which in (AKAI, ROLAND):
+    for which in decoders:
         w, cfg, paths = _analyse(ctx, which, "D1")
         has_dirrun = any("PREV-DIR" in _show(t) for kind, pr, tests, i, a, e in paths for t, taken, node in tests)
         # guard-variable exits: `while flag:` where the flag is cleared only on paths that break anyway
@@ -278,10 +278,26 @@ def rule_D1(ctx):
     ctx.fact("D1", "walk_exits", total)
 
 
-def rule_D3(ctx):
+def rule_D1a(ctx):
+    rule_D1(ctx, (AKAI,))
+
+
+def rule_D1r(ctx):
+    rule_D1(ctx, (ROLAND,))
+
+
+def rule_D3a(ctx):
+    rule_D3(ctx, (AKAI,))
+
+
+def rule_D3r(ctx):
+    rule_D3(ctx, (ROLAND,))
+
+
+def rule_D3(ctx, decoders=(AKAI, ROLAND)):
     """links are installed only where the chain really ends (END word, or end of a directory run)"""
     n = 0
-    for which in (AKAI, ROLAND):
+    for which in decoders:
         w, cfg, paths = _analyse(ctx, which, "D3")
         for kind, pr, tests, installed, appended, edge in paths:
             if not installed:
